@@ -9,7 +9,7 @@ use std::{
 };
 
 pub const MAX_PATTERNS: usize = 64;
-pub const MAX_EVENTS: usize = 1 << 16;
+pub const MAX_EVENTS: usize = 1 << 19;
 
 pub struct Pattern {
     pub len: usize,
